@@ -41,17 +41,18 @@ var opNames = [...]string{"none", "start", "yield", "resume", "send", "recv", "s
 
 // Config describes one simulated run.
 type Config struct {
-	Seed      uint64  // PRNG seed for the policy
-	NumCPU    int     // value returned by the rewritten runtime.NumCPU()
-	Policy    string  // "canonical" | "random" | "pct" | "replay"
-	PreemptP  float64 // random: probability of preemption per yield
-	PCTDepth  int     // pct: number of priority change points
-	PCTLen    int64   // pct: change points are drawn from [1, PCTLen] passed yields
-	Replay    []int64 // replay: decision list (exhausted => canonical choice)
-	Stalls    []Stall // scheduler-injected stalls
-	MaxYields int64   // budget: passed yields in the whole run
-	MaxDecs   int64   // budget: scheduling decisions
-	MaxTime   int64   // budget: simulated ns
+	Seed       uint64  // PRNG seed for the policy
+	NumCPU     int     // value returned by the rewritten runtime.NumCPU()
+	GoMaxProcs int     // value returned by the rewritten runtime.GOMAXPROCS(0); 0 = NumCPU
+	Policy     string  // "canonical" | "random" | "pct" | "replay"
+	PreemptP   float64 // random: probability of preemption per yield
+	PCTDepth   int     // pct: number of priority change points
+	PCTLen     int64   // pct: change points are drawn from [1, PCTLen] passed yields
+	Replay     []int64 // replay: decision list (exhausted => canonical choice)
+	Stalls     []Stall // scheduler-injected stalls
+	MaxYields  int64   // budget: passed yields in the whole run
+	MaxDecs    int64   // budget: scheduling decisions
+	MaxTime    int64   // budget: simulated ns
 	// grace after the root task returned; 0 = use the global budgets only
 	GraceYields int64
 	GraceTime   int64
